@@ -1,5 +1,6 @@
 // UNIT front: string entry points of the front end and the variable renamer (C05 composition, C07, C14)
 #![feature(allocator_api)]
+#![feature(pattern)]
 #![allow(unused_imports, dead_code, unused_variables, unused_mut, non_snake_case, unused_parens)]
 use vstd::prelude::*;
 use vstd::string::StringSliceAdditionalSpecFns;
@@ -24,6 +25,7 @@ pub uninterp spec fn prop_index(name: Seq<char>) -> Option<int>;
 pub assume_specification[ SymbolicContext::find_network_variable ](c: &SymbolicContext, name: &str) -> (r: Option<VariableId>)
     ensures r is Some <==> prop_index(name@) is Some;
 //@include prelude/std_model.rs
+//@include prelude/weak_std.rs
 //@include spec/syntax.rs
 //@include prelude/str_model.rs
 //@include spec/grammar.rs
